@@ -200,6 +200,7 @@ func init() {
 	})
 	ext("And", func(fr *frame, a []value) value { return boolOp("and", a[0], a[1]) })
 	ext("Or", func(fr *frame, a []value) value { return boolOp("or", a[0], a[1]) })
+	ext("UnderGosym", func(fr *frame, a []value) value { return true })
 	ext("Symbolic", func(fr *frame, a []value) value { return fr.i.s.vector == nil })
 	ext("Try", func(fr *frame, a []value) (res value) {
 		defer func() {
